@@ -302,7 +302,7 @@ func c10(tier string) {
 		ctx.Inconclusive("race build not available (run through ./check)")
 		ctx.Finish()
 	}
-	outDir := filepath.Join(lib.VerifRoot, "out", "race")
+	outDir := filepath.Join(lib.OutRoot(), "out", "race")
 	_ = os.MkdirAll(outDir, 0o755)
 	totalOverlap := 0
 	for _, procs := range []string{"2", "16"} {
